@@ -65,14 +65,24 @@ Section Assign.
   Definition dlen (st : dstate) : nat := length (d_nodes st).
 
   Variable F0 : nat.
+  Variable unfold : bool.
 
-  Record Inv (st : dstate) (pend : list nat) : Prop := {
+  (* every predecessor of v's step node has been traversed from v, and v
+     carries the marks of its node *)
+  Definition done (st : dstate) (v : nat) : Prop :=
+    (forall c, In c (kids (nodeof st v)) -> exists b, In (v, b) (d_edges st) /\ nodeof st b = c) /\
+    (tn_in (tnode_of T (nodeof st v)) = true -> In v (d_ins st)) /\
+    (In (nodeof st v) (t_outs T) -> In v (d_outs st)).
+
+  Record Inv (st : dstate) (pend cpend : list nat) : Prop := {
     iv_edges : forall a b, In (a, b) (d_edges st) ->
       a < dlen st /\ b < dlen st /\ In (nodeof st b) (kids (nodeof st a)) /\ stable F0 (nodeof st b);
     iv_outs : forall v, In v (d_outs st) -> v < dlen st /\ In (nodeof st v) (t_outs T);
     iv_ins : forall v, In v (d_ins st) -> v < dlen st /\ tn_in (tnode_of T (nodeof st v)) = true;
     iv_conn : forall v, v < dlen st ->
-      In v (d_outs st) \/ (exists a, In (a, v) (d_edges st)) \/ In v pend
+      In v (d_outs st) \/ (exists a, In (a, v) (d_edges st)) \/ In v pend;
+    iv_done : forall v, v < dlen st -> In v cpend \/ done st v;
+    iv_nodup : unfold = false -> NoDup (d_nodes st)
   }.
 
   Lemma index_of_spec x l v : index_of x l = Some v -> v < length l /\ nth v l 0 = x.
@@ -84,6 +94,15 @@ Section Assign.
       intros [= <-]. destruct (IH w eq_refl). cbn. split; [lia|auto].
   Qed.
 
+  Lemma index_of_None x l : index_of x l = None -> ~ In x l.
+  Proof.
+    induction l as [|y r IH]; cbn [index_of]; [auto|].
+    destruct (Nat.eqb x y) eqn:E; [discriminate|].
+    destruct (index_of x r); [discriminate|]. intros _ [<-|HI].
+    - rewrite Nat.eqb_refl in E. discriminate.
+    - now apply IH.
+  Qed.
+
   Lemma add_once_In x l y : In y (add_once x l) <-> y = x \/ In y l.
   Proof.
     unfold add_once. destruct (memn x l) eqn:E.
@@ -91,81 +110,19 @@ Section Assign.
     - rewrite in_app_iff. cbn. intuition.
   Qed.
 
-  (* a new variable for [node] *)
-  Lemma Inv_fresh st pend node :
-    Inv st pend ->
-    Inv (mkD (d_nodes st ++ [node]) (d_edges st) (d_outs st) (d_ins st)) (dlen st :: pend).
-  Proof.
-    intros I. unfold dlen, nodeof in *.
-    assert (NTH : forall v, v < length (d_nodes st) -> nth v (d_nodes st ++ [node]) 0 = nth v (d_nodes st) 0).
-    { intros v Hv. now apply app_nth1. }
-    split; cbn [d_nodes d_edges d_outs d_ins]; unfold dlen, nodeof; cbn [d_nodes]; rewrite ?app_length; cbn [length].
-    - intros a b Hab. destruct (iv_edges st pend I a b Hab) as (A & B & C & D).
-      unfold dlen, nodeof in *. rewrite !NTH by auto. repeat split; auto; lia.
-    - intros v Hv. destruct (iv_outs st pend I v Hv) as (A & B).
-      unfold dlen, nodeof in *. rewrite NTH by auto. split; auto; lia.
-    - intros v Hv. destruct (iv_ins st pend I v Hv) as (A & B).
-      unfold dlen, nodeof in *. rewrite NTH by auto. split; auto; lia.
-    - intros v Hv. destruct (Nat.eq_dec v (length (d_nodes st))) as [->|NE].
-      + right. right. now left.
-      + destruct (iv_conn st pend I v) as [A|[A|A]]; [unfold dlen; lia| | |]; auto.
-        right. right. now right.
-  Qed.
-
-  Lemma Inv_weaken st pend pend' : Inv st pend -> (forall v, In v pend -> In v pend') -> Inv st pend'.
-  Proof.
-    intros I SUB. split; try apply I.
-    intros v Hv. destruct (iv_conn st pend I v Hv) as [A|[A|A]]; auto.
-  Qed.
-
-  (* marking the variable as output / input *)
-  Lemma Inv_mark st pend var node :
-    Inv st pend -> var < dlen st -> nodeof st var = node ->
-    Inv (mkD (d_nodes st) (d_edges st)
-           (if memn node (t_outs T) then add_once var (d_outs st) else d_outs st)
-           (if tn_in (tnode_of T node) then add_once var (d_ins st) else d_ins st)) pend.
-  Proof.
-    intros I Hv E. split; cbn [d_nodes d_edges d_outs d_ins]; unfold dlen, nodeof; cbn [d_nodes].
-    - apply (iv_edges st pend I).
-    - intros v Hvo. destruct (memn node (t_outs T)) eqn:EM.
-      + apply add_once_In in Hvo. destruct Hvo as [->|Hvo]; [|apply (iv_outs st pend I v Hvo)].
-        split; auto. unfold nodeof in E. rewrite E. now apply memn_In.
-      + apply (iv_outs st pend I v Hvo).
-    - intros v Hvi. destruct (tn_in (tnode_of T node)) eqn:EM.
-      + apply add_once_In in Hvi. destruct Hvi as [->|Hvi]; [|apply (iv_ins st pend I v Hvi)].
-        split; auto. unfold nodeof in E. now rewrite E.
-      + apply (iv_ins st pend I v Hvi).
-    - intros v Hvl. destruct (iv_conn st pend I v Hvl) as [A|[A|A]]; auto.
-      left. destruct (memn node (t_outs T)); auto. apply add_once_In. now right.
-  Qed.
-
-  (* recording  before[var] += nv; after[nv] += var *)
-  Lemma Inv_edge st pend var nv :
-    Inv st (nv :: pend) -> var < dlen st -> nv < dlen st ->
-    In (nodeof st nv) (kids (nodeof st var)) -> stable F0 (nodeof st nv) ->
-    Inv (mkD (d_nodes st) (d_edges st ++ [(var, nv)]) (d_outs st) (d_ins st)) pend.
-  Proof.
-    intros I Hv Hn K S. split; cbn [d_nodes d_edges d_outs d_ins]; unfold dlen, nodeof; cbn [d_nodes].
-    - intros a b Hab. apply in_app_or in Hab. destruct Hab as [Hab|[[= <- <-]|[]]].
-      + apply (iv_edges st _ I a b Hab).
-      + repeat split; auto.
-    - apply (iv_outs st _ I).
-    - apply (iv_ins st _ I).
-    - intros v Hvl. destruct (iv_conn st _ I v Hvl) as [A|[(a & A)|[<-|A]]]; auto.
-      + right. left. exists a. apply in_or_app. now left.
-      + right. left. exists var. apply in_or_app. right. now left.
-  Qed.
-
+  (* states only grow *)
   Definition extends (st st' : dstate) : Prop :=
     (exists ext, d_nodes st' = d_nodes st ++ ext) /\
-    (forall v, In v (d_outs st) -> In v (d_outs st')).
+    (forall v, In v (d_outs st) -> In v (d_outs st')) /\
+    (forall v, In v (d_ins st) -> In v (d_ins st')) /\
+    (forall e, In e (d_edges st) -> In e (d_edges st')).
 
   Lemma extends_refl st : extends st st.
-  Proof. split; auto. exists []. now rewrite app_nil_r. Qed.
+  Proof. split; [|auto]. exists []. now rewrite app_nil_r. Qed.
 
   Lemma extends_trans a b c : extends a b -> extends b c -> extends a c.
   Proof.
-    intros ((e1 & E1) & O1) ((e2 & E2) & O2). split; auto.
+    intros ((e1 & E1) & O1 & I1 & D1) ((e2 & E2) & O2 & I2 & D2). split; [|auto].
     exists (e1 ++ e2). rewrite E2, E1. now rewrite app_assoc.
   Qed.
 
@@ -176,49 +133,179 @@ Section Assign.
     split; [now apply app_nth1 | lia].
   Qed.
 
-  Theorem assign_inv unfold : forall f, f <= S F0 ->
-    forall node path st pend var st',
-    Inv st pend -> assign f T unfold node path st = Ok (var, st') ->
-    Inv st' (var :: pend) /\ var < dlen st' /\ nodeof st' var = node /\
-    stable f node /\ extends st st' /\
+  Lemma done_extends st st' v : extends st st' -> v < dlen st ->
+    (forall a b, In (a, b) (d_edges st) -> b < dlen st) ->
+    done st v -> done st' v.
+  Proof.
+    intros X Hv VE (K & I & O).
+    destruct (extends_nodeof st st' v X Hv) as [N _]. unfold done. rewrite N.
+    destruct X as (XN & XO & XI & XE). split; [|split; auto].
+    intros c Hc. destruct (K c Hc) as (b & Hb & Nb). exists b. split; auto.
+    rewrite <- Nb. apply extends_nodeof; [repeat split; auto | apply (VE v b Hb)].
+  Qed.
+
+  Lemma NoDup_snoc (l : list nat) x : NoDup l -> ~ In x l -> NoDup (l ++ [x]).
+  Proof.
+    induction l as [|y l IH]; intros ND NI; cbn [app].
+    - constructor; [intros []|constructor].
+    - inversion ND as [|y' l' NY NDl]; subst. constructor.
+      + rewrite in_app_iff. intros [A|[<-|[]]]; [auto|]. apply NI. now left.
+      + apply IH; auto. intros A. apply NI. now right.
+  Qed.
+
+  (* a new variable for [node] *)
+  Lemma Inv_fresh st pend cpend node :
+    Inv st pend cpend -> (unfold = false -> ~ In node (d_nodes st)) ->
+    Inv (mkD (d_nodes st ++ [node]) (d_edges st) (d_outs st) (d_ins st))
+        (dlen st :: pend) (dlen st :: cpend).
+  Proof.
+    intros I FRESH.
+    set (st' := mkD (d_nodes st ++ [node]) (d_edges st) (d_outs st) (d_ins st)).
+    assert (X : extends st st').
+    { split; [exists [node]; reflexivity | cbn; auto]. }
+    assert (L' : dlen st' = S (dlen st)).
+    { unfold dlen, st'. cbn [d_nodes]. rewrite app_length. cbn. lia. }
+    split.
+    - intros a b Hab. destruct (iv_edges st pend cpend I a b Hab) as (A & B & C & D).
+      destruct (extends_nodeof st st' a X A) as [Na _].
+      destruct (extends_nodeof st st' b X B) as [Nb _].
+      rewrite Na, Nb, L'. repeat split; auto; lia.
+    - intros v Hv. destruct (iv_outs st pend cpend I v Hv) as (A & B).
+      destruct (extends_nodeof st st' v X A) as [Nv _]. rewrite Nv, L'. split; auto; lia.
+    - intros v Hv. destruct (iv_ins st pend cpend I v Hv) as (A & B).
+      destruct (extends_nodeof st st' v X A) as [Nv _]. rewrite Nv, L'. split; auto; lia.
+    - rewrite L'. intros v Hv. destruct (Nat.eq_dec v (dlen st)) as [->|NE].
+      + right. right. now left.
+      + destruct (iv_conn st pend cpend I v) as [A|[A|A]]; [lia| | |]; auto.
+        right. right. now right.
+    - rewrite L'. intros v Hv. destruct (Nat.eq_dec v (dlen st)) as [->|NE].
+      + left. now left.
+      + destruct (iv_done st pend cpend I v) as [A|A]; [lia| |].
+        * left. now right.
+        * right. apply (done_extends st st'); auto; [lia|].
+          intros a b Hab. apply (iv_edges st pend cpend I a b Hab).
+    - intros U. cbn [st' d_nodes]. apply NoDup_snoc; [apply (iv_nodup st pend cpend I U)|].
+      now apply FRESH.
+  Qed.
+
+  Lemma Inv_weaken st pend pend' cpend cpend' : Inv st pend cpend ->
+    (forall v, In v pend -> In v pend') -> (forall v, In v cpend -> In v cpend') ->
+    Inv st pend' cpend'.
+  Proof.
+    intros I SUB SUB'. split; try apply I.
+    - intros v Hv. destruct (iv_conn st pend cpend I v Hv) as [A|[A|A]]; auto.
+    - intros v Hv. destruct (iv_done st pend cpend I v Hv) as [A|A]; auto.
+  Qed.
+
+  (* marking the variable as output / input *)
+  Lemma Inv_mark st pend cpend var node :
+    Inv st pend cpend -> var < dlen st -> nodeof st var = node ->
+    Inv (mkD (d_nodes st) (d_edges st)
+           (if memn node (t_outs T) then add_once var (d_outs st) else d_outs st)
+           (if tn_in (tnode_of T node) then add_once var (d_ins st) else d_ins st)) pend cpend.
+  Proof.
+    intros I Hv E. split; cbn [d_nodes d_edges d_outs d_ins]; unfold dlen, nodeof; cbn [d_nodes].
+    - apply (iv_edges st pend cpend I).
+    - intros v Hvo. destruct (memn node (t_outs T)) eqn:EM.
+      + apply add_once_In in Hvo. destruct Hvo as [->|Hvo]; [|apply (iv_outs st pend cpend I v Hvo)].
+        split; auto. unfold nodeof in E. rewrite E. now apply memn_In.
+      + apply (iv_outs st pend cpend I v Hvo).
+    - intros v Hvi. destruct (tn_in (tnode_of T node)) eqn:EM.
+      + apply add_once_In in Hvi. destruct Hvi as [->|Hvi]; [|apply (iv_ins st pend cpend I v Hvi)].
+        split; auto. unfold nodeof in E. now rewrite E.
+      + apply (iv_ins st pend cpend I v Hvi).
+    - intros v Hvl. destruct (iv_conn st pend cpend I v Hvl) as [A|[A|A]]; auto.
+      left. destruct (memn node (t_outs T)); auto. apply add_once_In. now right.
+    - intros v Hvl. destruct (iv_done st pend cpend I v Hvl) as [A|(K & DI & DO)]; auto.
+      right. split; [exact K|]. cbn [d_ins d_outs]. split.
+      + intros A. specialize (DI A). destruct (tn_in (tnode_of T node)); auto.
+        apply add_once_In. now right.
+      + intros A. specialize (DO A). destruct (memn node (t_outs T)); auto.
+        apply add_once_In. now right.
+    - apply (iv_nodup st pend cpend I).
+  Qed.
+
+  (* recording  before[var] += nv; after[nv] += var *)
+  Lemma Inv_edge st pend cpend var nv :
+    Inv st (nv :: pend) cpend -> var < dlen st -> nv < dlen st ->
+    In (nodeof st nv) (kids (nodeof st var)) -> stable F0 (nodeof st nv) ->
+    Inv (mkD (d_nodes st) (d_edges st ++ [(var, nv)]) (d_outs st) (d_ins st)) pend cpend.
+  Proof.
+    intros I Hv Hn K S. split; cbn [d_nodes d_edges d_outs d_ins]; unfold dlen, nodeof; cbn [d_nodes].
+    - intros a b Hab. apply in_app_or in Hab. destruct Hab as [Hab|[[= <- <-]|[]]].
+      + apply (iv_edges st _ _ I a b Hab).
+      + repeat split; auto.
+    - apply (iv_outs st _ _ I).
+    - apply (iv_ins st _ _ I).
+    - intros v Hvl. destruct (iv_conn st _ _ I v Hvl) as [A|[(a & A)|[<-|A]]]; auto.
+      + right. left. exists a. apply in_or_app. now left.
+      + right. left. exists var. apply in_or_app. right. now left.
+    - intros v Hvl. destruct (iv_done st _ _ I v Hvl) as [A|(KK & DI & DO)]; auto.
+      right. split; [|split; auto]. intros c Hc. destruct (KK c Hc) as (b & Hb & Nb).
+      exists b. split; auto. apply in_or_app. now left.
+    - apply (iv_nodup st _ _ I).
+  Qed.
+
+  (* the variable's own traversal is finished *)
+  Lemma Inv_finish st pend cpend var :
+    Inv st pend (var :: cpend) -> done st var -> Inv st pend cpend.
+  Proof.
+    intros I D. split; try apply I.
+    intros v Hv. destruct (iv_done st _ _ I v Hv) as [[<-|A]|A]; auto.
+  Qed.
+
+  Theorem assign_inv : forall f, f <= S F0 ->
+    forall node path st pend cpend var st',
+    Inv st pend cpend -> assign f T unfold node path st = Ok (var, st') ->
+    Inv st' (var :: pend) cpend /\ var < dlen st' /\ nodeof st' var = node /\
+    stable f node /\ extends st st' /\ (var < dlen st \/ done st' var) /\
     (memn node (t_outs T) = true -> In var (d_outs st')).
   Proof.
-    induction f as [|f IH]; intros LF node path st pend var st' I; cbn [assign]; [discriminate|].
+    induction f as [|f IH]; intros LF node path st pend cpend var st' I; cbn [assign]; [discriminate|].
     destruct (memn node path); [discriminate|].
     set (fresh := (length (d_nodes st), mkD (d_nodes st ++ [node]) (d_edges st) (d_outs st) (d_ins st))).
     set (choice := if unfold then fresh
                    else match index_of node (d_nodes st) with Some v => (v, st) | None => fresh end).
     (* the chosen variable and state *)
     assert (CH : let '(v1, st1) := choice in
-              Inv st1 (v1 :: pend) /\ v1 < dlen st1 /\ nodeof st1 v1 = node /\ extends st st1).
-    { assert (FR : Inv (snd fresh) (fst fresh :: pend) /\ fst fresh < dlen (snd fresh) /\
+              Inv st1 (v1 :: pend) (v1 :: cpend) /\ v1 < dlen st1 /\ nodeof st1 v1 = node /\
+              extends st st1).
+    { assert (FR : (unfold = false -> ~ In node (d_nodes st)) ->
+                   Inv (snd fresh) (fst fresh :: pend) (fst fresh :: cpend) /\
+                   fst fresh < dlen (snd fresh) /\
                    nodeof (snd fresh) (fst fresh) = node /\ extends st (snd fresh)).
-      { cbn [fresh fst snd]. split; [apply (Inv_fresh st pend node I)|].
+      { intros FRESH. cbn [fresh fst snd]. split; [apply (Inv_fresh st pend cpend node I FRESH)|].
         unfold dlen, nodeof. cbn [d_nodes]. rewrite app_length. cbn [length].
         split; [lia|]. split.
         - rewrite app_nth2 by lia. now rewrite Nat.sub_diag.
-        - split; cbn [d_nodes d_outs]; auto. eauto. }
-      unfold choice. destruct unfold; [exact FR|].
-      destruct (index_of node (d_nodes st)) as [v|] eqn:EI; [|exact FR].
-      destruct (index_of_spec _ _ _ EI) as [Hv En].
-      split; [|split; [|split]]; auto using extends_refl.
-      apply (Inv_weaken st pend); auto. intros x Hx. now right. }
+        - split; [exists [node]; reflexivity | cbn; auto]. }
+      unfold choice. destruct unfold eqn:EU; [apply FR; discriminate|].
+      destruct (index_of node (d_nodes st)) as [v|] eqn:EI.
+      - destruct (index_of_spec _ _ _ EI) as [Hv En].
+        split; [|split; [|split]]; auto using extends_refl.
+        apply (Inv_weaken st pend _ cpend); auto; intros x Hx; now right.
+      - apply FR. intros _. now apply index_of_None. }
     destruct choice as [v1 st1]. destruct CH as (I1 & Hv1 & N1 & X1).
     set (st2 := mkD (d_nodes st1) (d_edges st1)
                   (if memn node (t_outs T) then add_once v1 (d_outs st1) else d_outs st1)
                   (if tn_in (tnode_of T node) then add_once v1 (d_ins st1) else d_ins st1)).
-    assert (I2 : Inv st2 (v1 :: pend)) by (apply Inv_mark; auto).
-    assert (X2 : extends st st2).
-    { destruct X1 as (E1 & O1). split; cbn [st2 d_nodes d_outs]; auto.
-      intros v Hv. destruct (memn node (t_outs T)); auto. apply add_once_In. right. auto. }
+    assert (I2 : Inv st2 (v1 :: pend) (v1 :: cpend)) by (apply Inv_mark; auto).
+    assert (X12 : extends st1 st2).
+    { split; [exists []; cbn; now rewrite app_nil_r|]. cbn [st2 d_outs d_ins d_edges].
+      split; [|split; auto].
+      - intros v Hv. destruct (memn node (t_outs T)); auto. apply add_once_In. now right.
+      - intros v Hv. destruct (tn_in (tnode_of T node)); auto. apply add_once_In. now right. }
+    assert (X2 : extends st st2) by (apply (extends_trans st st1 st2); auto).
     assert (H2 : v1 < dlen st2 /\ nodeof st2 v1 = node) by (split; auto).
     assert (OUT2 : memn node (t_outs T) = true -> In v1 (d_outs st2)).
     { intros E. cbn [st2 d_outs]. rewrite E. apply add_once_In. now left. }
-    clearbody st2. clear I1 Hv1 N1 X1 st1.
+    assert (IN2 : tn_in (tnode_of T node) = true -> In v1 (d_ins st2)).
+    { intros E. cbn [st2 d_ins]. rewrite E. apply add_once_In. now left. }
+    clearbody st2. clear I1 Hv1 N1 X1 X12 st1.
     (* the loop over the node's predecessors *)
     assert (LOOP : forall nexts st3,
       (forall c, In c nexts -> In c (kids node)) ->
-      Inv st3 (v1 :: pend) -> v1 < dlen st3 -> nodeof st3 v1 = node ->
+      Inv st3 (v1 :: pend) (v1 :: cpend) -> v1 < dlen st3 -> nodeof st3 v1 = node ->
       (fix loop (nexts : list nat) (st : dstate) {struct nexts} : res (nat * dstate) :=
          match nexts with
          | [] => Ok (v1, st)
@@ -230,67 +317,96 @@ Section Assign.
              | OutOfFuel => OutOfFuel
              end
          end) nexts st3 = Ok (var, st') ->
-      var = v1 /\ Inv st' (v1 :: pend) /\ extends st3 st' /\
-      (forall c, In c nexts -> stable f c)).
+      var = v1 /\ Inv st' (v1 :: pend) (v1 :: cpend) /\ extends st3 st' /\
+      (forall c, In c nexts -> stable f c) /\
+      (forall c, In c nexts -> exists b, In (v1, b) (d_edges st') /\ nodeof st' b = c)).
     { induction nexts as [|nx r IHr]; intros st3 SUB I3 Hv3 N3.
       - intros [= <- <-]. split; [reflexivity|]. split; [exact I3|].
-        split; [apply extends_refl|]. intros c [].
+        split; [apply extends_refl|]. split; intros c [].
       - destruct (assign f T unfold nx (path ++ [node]) st3) as [[nv st4]| |] eqn:EA; try discriminate.
-        destruct (IH ltac:(lia) nx (path ++ [node]) st3 (v1 :: pend) nv st4 I3 EA)
-          as (I4 & Hnv & Nnv & Snx & X4 & _).
+        destruct (IH ltac:(lia) nx (path ++ [node]) st3 (v1 :: pend) (v1 :: cpend) nv st4 I3 EA)
+          as (I4 & Hnv & Nnv & Snx & X4 & _ & _).
         destruct (extends_nodeof st3 st4 v1 X4 Hv3) as [N4 Hv4].
         set (st5 := mkD (d_nodes st4) (d_edges st4 ++ [(v1, nv)]) (d_outs st4) (d_ins st4)).
-        assert (I5 : Inv st5 (v1 :: pend)).
+        assert (I5 : Inv st5 (v1 :: pend) (v1 :: cpend)).
         { apply Inv_edge; auto.
           - rewrite Nnv, N4, N3. apply SUB. now left.
           - rewrite Nnv. apply (stable_mono f); auto. lia. }
+        assert (X45 : extends st4 st5).
+        { split; [exists []; cbn; now rewrite app_nil_r|]. cbn [st5 d_outs d_ins d_edges].
+          split; auto. split; auto. intros e He. apply in_or_app. now left. }
         intros EL.
         destruct (IHr st5 ltac:(intros c Hc; apply SUB; now right) I5 Hv4 ltac:(rewrite <- N3; exact N4) EL)
-          as (Ev & I6 & X6 & SR).
+          as (Ev & I6 & X6 & SR & ER).
         split; [exact Ev|]. split; [exact I6|]. split.
-        + apply (extends_trans st3 st4 st'); auto.
-        + intros c [<-|Hc]; auto. }
+        + apply (extends_trans st3 st4 st'); auto. apply (extends_trans st4 st5 st'); auto.
+        + split.
+          * intros c [<-|Hc]; auto.
+          * intros c [<-|Hc]; auto. exists nv. split.
+            -- destruct X6 as (_ & _ & _ & XE). apply XE. cbn [st5 d_edges].
+               apply in_or_app. right. now left.
+            -- rewrite <- Nnv. apply (extends_nodeof st5 st' nv X6). exact Hnv. }
     intros EL. destruct H2 as [Hv2 N2].
-    destruct (LOOP (kids node) st2 ltac:(auto) I2 Hv2 N2 EL) as (-> & I' & X' & SK).
+    destruct (LOOP (kids node) st2 ltac:(auto) I2 Hv2 N2 EL) as (-> & I' & X' & SK & EK).
     destruct (extends_nodeof st2 st' v1 X' Hv2) as [N' Hv'].
-    split; [exact I'|]. split; [exact Hv'|]. split; [rewrite N'; exact N2|].
-    split; [apply stable_S; exact SK|]. split.
-    - apply (extends_trans st st2 st'); auto.
-    - intros E. destruct X' as (_ & O'). apply O'. auto.
+    assert (D' : done st' v1).
+    { unfold done. rewrite N', N2. split; [exact EK|]. destruct X' as (_ & XO & XI & _). split.
+      - intros E. apply XI. auto.
+      - intros E. apply XO. apply OUT2. now apply memn_In. }
+    split; [apply (Inv_finish st' (v1 :: pend) cpend v1); auto|].
+    split; [exact Hv'|]. split; [rewrite N'; exact N2|].
+    split; [apply stable_S; exact SK|]. split; [apply (extends_trans st st2 st'); auto|].
+    split; [now right|].
+    intros E. destruct X' as (_ & O' & _). apply O'. auto.
   Qed.
 
-  Lemma assign_all_inv unfold : forall outs st st',
+  Lemma assign_all_inv : forall outs st st',
     (forall o, In o outs -> In o (t_outs T)) ->
-    Inv st [] -> assign_all (S F0) T unfold outs st = Ok st' -> Inv st' [].
+    Inv st [] [] -> assign_all (S F0) T unfold outs st = Ok st' ->
+    Inv st' [] [] /\ extends st st' /\
+    (forall o, In o outs -> exists v, v < dlen st' /\ nodeof st' v = o).
   Proof.
     induction outs as [|o r IH]; intros st st' SUB I; cbn [assign_all].
-    - intros [= <-]. exact I.
+    - intros [= <-]. split; [exact I|]. split; [apply extends_refl|]. intros o [].
     - destruct (assign (S F0) T unfold o [] st) as [[v st1]| |] eqn:EA; try discriminate.
-      destruct (assign_inv unfold (S F0) ltac:(lia) o [] st [] v st1 I EA) as (I1 & Hv & Nv & _ & _ & OUT).
-      intros ER. apply (IH st1 st'); auto.
-      + intros x Hx. apply SUB. now right.
-      + split; try apply I1. intros x Hx.
-        destruct (iv_conn st1 _ I1 x Hx) as [A|[A|[<-|[]]]]; auto.
-        left. apply OUT. apply memn_In. apply SUB. now left.
+      destruct (assign_inv (S F0) ltac:(lia) o [] st [] [] v st1 I EA)
+        as (I1 & Hv & Nv & _ & X1 & _ & OUT).
+      intros ER.
+      assert (I1' : Inv st1 [] []).
+      { split; try apply I1. intros x Hx.
+        destruct (iv_conn st1 _ _ I1 x Hx) as [A|[A|[<-|[]]]]; auto.
+        left. apply OUT. apply memn_In. apply SUB. now left. }
+      destruct (IH st1 st' ltac:(intros x Hx; apply SUB; now right) I1' ER) as (I' & X' & V').
+      split; [exact I'|]. split; [apply (extends_trans st st1 st'); auto|].
+      intros x [<-|Hx]; auto. exists v.
+      destruct (extends_nodeof st1 st' v X' Hv) as [N' L']. split; auto. now rewrite N'.
   Qed.
 End Assign.
 
-Lemma Inv_init T F0 : Inv T F0 (mkD [] [] [] []) [].
-Proof. split; cbn; intros; try tauto. unfold dlen in *. cbn in *. lia. Qed.
+Lemma Inv_init T F0 unfold : Inv T F0 unfold (mkD [] [] [] []) [] [].
+Proof.
+  split; cbn; intros; try tauto; try (unfold dlen in *; cbn in *; lia). constructor.
+Qed.
 
-(* what a successful traversal leaves *)
-Record from_task (T : task) (sk : skel) (nodes : list nat) : Prop := {
+(* what a successful traversal leaves: sound and complete w.r.t. the task graph *)
+Record from_task (T : task) (unfold : bool) (sk : skel) (nodes : list nat) : Prop := {
   ft_len : length nodes = sk_n sk;
   ft_ty : forall v, v < sk_n sk -> tyof sk v = tn_ty (tnode_of T (nth v nodes 0));
   ft_op : forall v, v < sk_n sk -> opof sk v = tn_op (tnode_of T (nth v nodes 0));
   ft_edges : forall a b, In (a, b) (sk_edges sk) ->
      In (nth b nodes 0) (tn_from (tnode_of T (nth a nodes 0)));
   ft_outs : forall v, In v (sk_outs sk) -> In (nth v nodes 0) (t_outs T);
-  ft_ins : forall v, In v (sk_ins sk) -> tn_in (tnode_of T (nth v nodes 0)) = true
+  ft_ins : forall v, In v (sk_ins sk) -> tn_in (tnode_of T (nth v nodes 0)) = true;
+  ft_all_edges : forall v c, v < sk_n sk -> In c (tn_from (tnode_of T (nth v nodes 0))) ->
+     exists b, In (v, b) (sk_edges sk) /\ nth b nodes 0 = c;
+  ft_all_ins : forall v, v < sk_n sk -> tn_in (tnode_of T (nth v nodes 0)) = true -> In v (sk_ins sk);
+  ft_all_outs : forall v, v < sk_n sk -> In (nth v nodes 0) (t_outs T) -> In v (sk_outs sk);
+  ft_outs_vars : forall o, In o (t_outs T) -> exists v, v < sk_n sk /\ nth v nodes 0 = o;
+  ft_nodup : unfold = false -> NoDup nodes
 }.
 
 Theorem skeleton_dag fuel T unfold sk : skeleton fuel T unfold = Ok sk ->
-  sk_dag sk /\ exists nodes, from_task T sk nodes.
+  sk_dag sk /\ exists nodes, from_task T unfold sk nodes.
 Proof.
   unfold skeleton.
   destruct (assign_all fuel T unfold (t_outs T) (mkD [] [] [] [])) as [st| |] eqn:EA; try discriminate.
@@ -303,37 +419,44 @@ Proof.
       + unfold sk_valid, sk_n. cbn. repeat split; intros; tauto.
       + exists (fun _ => 0). intros a b [].
       + unfold sk_n. cbn. intros v Hv. lia.
-    - exists []. split; unfold sk_n; cbn; intros; try tauto; lia. }
-  pose proof (assign_all_inv T F0 unfold (t_outs T) _ st ltac:(auto) (Inv_init T F0) EA) as I.
+    - exists []. split; unfold sk_n; cbn; intros; try tauto; try lia.
+      + rewrite EO in H. destruct H.
+      + constructor. }
+  destruct (assign_all_inv T F0 unfold (t_outs T) _ st ltac:(auto) (Inv_init T F0 unfold) EA)
+    as (I & _ & OV).
   assert (LEN : sk_n (skel_of T st) = dlen st).
   { unfold sk_n, skel_of, dlen. cbn. now rewrite map_length. }
   split.
   - split; [|split].
     + unfold sk_valid. rewrite LEN. cbn [skel_of sk_edges sk_outs sk_ins sk_op].
       split; [|split; [|split]].
-      * intros a b Hab. destruct (iv_edges T F0 st [] I a b Hab) as (A & B & _). auto.
-      * intros v Hv. apply (iv_outs T F0 st [] I v Hv).
-      * intros v Hv. apply (iv_ins T F0 st [] I v Hv).
+      * intros a b Hab. destruct (iv_edges T F0 unfold st [] [] I a b Hab) as (A & B & _). auto.
+      * intros v Hv. apply (iv_outs T F0 unfold st [] [] I v Hv).
+      * intros v Hv. apply (iv_ins T F0 unfold st [] [] I v Hv).
       * unfold dlen. now rewrite map_length.
     + exists (fun v => S F0 - ht T (S F0) (nodeof st v)). intros a b Hab.
       cbn [skel_of sk_edges] in Hab.
-      destruct (iv_edges T F0 st [] I a b Hab) as (_ & _ & K & Sb).
+      destruct (iv_edges T F0 unfold st [] [] I a b Hab) as (_ & _ & K & Sb).
       pose proof (ht_edge T F0 _ _ K Sb). pose proof (ht_le T (S F0) (nodeof st a)). lia.
     + rewrite LEN. intros v Hv. cbn [skel_of sk_outs].
-      destruct (iv_conn T F0 st [] I v Hv) as [A|[(a & A)|[]]]; auto.
+      destruct (iv_conn T F0 unfold st [] [] I v Hv) as [A|[(a & A)|[]]]; auto.
       right. intros E. assert (HI : In a (after (skel_of T st) v)) by now apply after_In.
       rewrite E in HI. destruct HI.
-  - exists (d_nodes st). split.
-    + now rewrite LEN.
-    + intros v Hv. unfold tyof, skel_of. cbn [sk_ty].
-      rewrite LEN in Hv. unfold dlen in Hv.
+  - exists (d_nodes st). split; try rewrite LEN.
+    + reflexivity.
+    + intros v Hv. unfold tyof, skel_of. cbn [sk_ty]. unfold dlen in Hv.
       rewrite (nth_indep _ [] (tn_ty (tnode_of T 0))) by now rewrite map_length.
       now rewrite (map_nth (fun n => tn_ty (tnode_of T n))).
-    + intros v Hv. unfold opof, skel_of. cbn [sk_op].
-      rewrite LEN in Hv. unfold dlen in Hv.
+    + intros v Hv. unfold opof, skel_of. cbn [sk_op]. unfold dlen in Hv.
       rewrite (nth_indep _ [] (tn_op (tnode_of T 0))) by now rewrite map_length.
       now rewrite (map_nth (fun n => tn_op (tnode_of T n))).
-    + intros a b Hab. apply (iv_edges T F0 st [] I a b Hab).
-    + intros v Hv. apply (iv_outs T F0 st [] I v Hv).
-    + intros v Hv. apply (iv_ins T F0 st [] I v Hv).
+    + intros a b Hab. apply (iv_edges T F0 unfold st [] [] I a b Hab).
+    + intros v Hv. apply (iv_outs T F0 unfold st [] [] I v Hv).
+    + intros v Hv. apply (iv_ins T F0 unfold st [] [] I v Hv).
+    + intros v c Hv Hc. destruct (iv_done T F0 unfold st [] [] I v Hv) as [[]|(K & _)].
+      apply (K c Hc).
+    + intros v Hv Hi. destruct (iv_done T F0 unfold st [] [] I v Hv) as [[]|(_ & DI & _)]. auto.
+    + intros v Hv Ho. destruct (iv_done T F0 unfold st [] [] I v Hv) as [[]|(_ & _ & DO)]. auto.
+    + intros o Ho. apply (OV o Ho).
+    + apply (iv_nodup T F0 unfold st [] [] I).
 Qed.
